@@ -7,7 +7,6 @@
 package main
 
 import (
-	"strings"
 	"context"
 	"encoding/hex"
 	"errors"
@@ -16,6 +15,7 @@ import (
 	"os"
 	"path/filepath"
 	"sort"
+	"strings"
 	"sync"
 	"sync/atomic"
 	"time"
@@ -24,7 +24,14 @@ import (
 	"github.com/massnetorg/mass-core/poc/pocutil"
 	"github.com/massnetorg/mass-core/pocec"
 
+	"github.com/golang/protobuf/ptypes/empty"
+	"github.com/massnetorg/mass-core/massutil"
+	"google.golang.org/grpc/status"
+
+	"massnet.org/mass/api"
+	pb "massnet.org/mass/api/proto"
 	"massnet.org/mass/config"
+	"massnet.org/mass/mining"
 	"massnet.org/mass/poc/engine"
 	"massnet.org/mass/poc/engine/massdb"
 	"massnet.org/mass/poc/engine/spacekeeper/capacity"
@@ -104,12 +111,12 @@ func (r *registry) create(args ...interface{}) (massdb.MassDB, error) {
 	return d, nil
 }
 
-func (d *fakeDB) Type() string                { return "massdb.v1" }
-func (d *fakeDB) Close() error                { <-d.StopPlot(); return nil }
-func (d *fakeDB) Ready() bool                 { d.mu.Lock(); defer d.mu.Unlock(); return d.plotted }
-func (d *fakeDB) BitLength() int              { return d.bl }
-func (d *fakeDB) PubKeyHash() pocutil.Hash    { return pocutil.PubKeyHash(d.pk) }
-func (d *fakeDB) PubKey() *pocec.PublicKey    { return d.pk }
+func (d *fakeDB) Type() string             { return "massdb.v1" }
+func (d *fakeDB) Close() error             { <-d.StopPlot(); return nil }
+func (d *fakeDB) Ready() bool              { d.mu.Lock(); defer d.mu.Unlock(); return d.plotted }
+func (d *fakeDB) BitLength() int           { return d.bl }
+func (d *fakeDB) PubKeyHash() pocutil.Hash { return pocutil.PubKeyHash(d.pk) }
+func (d *fakeDB) PubKey() *pocec.PublicKey { return d.pk }
 func (d *fakeDB) GetProof(challenge pocutil.Hash, filter bool) (*poc.DefaultProof, error) {
 	return nil, errors.New("scripted backend has no proofs")
 }
@@ -307,6 +314,54 @@ type drv struct {
 	at      string // where the plotter goroutine is: "none", a gate name, "inplot", "exited"
 	running bool
 	cur     *fakeDB
+	srv     *api.Server // Api scenarios: the gRPC handlers over this keeper and a scripted miner
+	miner   *fakeMiner
+}
+
+// fakeMiner: the PoC miner as the handlers see it (started or not)
+type fakeMiner struct {
+	mu      sync.Mutex
+	started bool
+	calls   []string
+}
+
+func (m *fakeMiner) Start() error {
+	m.mu.Lock()
+	defer m.mu.Unlock()
+	m.started = true
+	m.calls = append(m.calls, "Start")
+	return nil
+}
+func (m *fakeMiner) Stop() error {
+	m.mu.Lock()
+	defer m.mu.Unlock()
+	m.started = false
+	m.calls = append(m.calls, "Stop")
+	return nil
+}
+func (m *fakeMiner) Started() bool                               { m.mu.Lock(); defer m.mu.Unlock(); return m.started }
+func (m *fakeMiner) Type() string                                { return "scripted" }
+func (m *fakeMiner) SetPayoutAddresses([]massutil.Address) error { return nil }
+
+// apiRes names a handler's answer
+func apiRes(res, msg string, err error) string {
+	if res != "err" {
+		return res
+	}
+	if st, ok := status.FromError(err); ok {
+		switch int(st.Code()) {
+		case api.ErrAPIMinerInternal:
+			return "internal"
+		case api.ErrAPIMinerSpaceNotFound:
+			return "notfound"
+		case api.ErrAPIMinerInvalidSpaceID, api.ErrAPIInvalidSpaceID:
+			return "invalid"
+		case api.ErrAPIMinerNoConfig:
+			return "noconfig"
+		}
+		return fmt.Sprintf("status-%d", int(st.Code()))
+	}
+	return "err"
 }
 
 func (d *drv) w(sid string) string {
@@ -355,6 +410,92 @@ func call(f func() error) (string, string) {
 	case <-time.After(callTimeout):
 		return "hang", ""
 	}
+}
+
+// windStop runs f - a call that stops the keeper (sk.Stop(), or an API handler that calls it) - while letting the
+// plotter goroutine run from its gate to its exit, as the stop requires.  It returns f's result, its error text and
+// the gates the plotter passed.
+func (d *drv) windStop(f func() error) (string, string, []string) {
+	sk := d.sk
+	done := make(chan string, 1)
+	msg := ""
+	go func() {
+		r, m := call(f)
+		msg = m
+		done <- r
+	}()
+	// the stop takes effect when the quit channel is closed: only then let the plotter run freely to its exit
+	for k := 0; k < 2000 && !capacity.VerifQuitClosed(sk); k++ {
+		select {
+		case r := <-done:
+			// f returned and the keeper was not stopped: the plotter stays where it is
+			return r, msg, nil
+		case <-time.After(time.Millisecond):
+		}
+	}
+	passed := []string{}
+	res := ""
+	deadline := time.After(callTimeout + 2*time.Second)
+wind:
+	for {
+		if d.at != "exited" && d.at != "none" && d.at != "inplot" {
+			select {
+			case d.g.grant <- struct{}{}:
+			case r := <-done:
+				res = r
+				break wind
+			case <-deadline:
+				res = "hang"
+				break wind
+			}
+		}
+		select {
+		case p := <-d.g.parked:
+			passed = append(passed, p.point)
+			d.at = p.point
+			if p.point == "exit" {
+				d.at = "exited"
+			}
+		case db := <-d.reg.inplot:
+			d.at, d.cur = "inplot", db
+			passed = append(passed, "inplot")
+		case r := <-done:
+			res = r
+			break wind
+		case <-deadline:
+			res = "hang"
+			break wind
+		}
+		if d.at == "exited" {
+			select {
+			case r := <-done:
+				res = r
+			case <-deadline:
+				res = "hang"
+			}
+			break wind
+		}
+	}
+	// the exit report is sent before the plotter's wg.Done, i.e. before Stop can return: when the select above
+	// took Stop's return first, the report is already waiting
+	if (res == "ok" || res == "err") && d.at != "exited" {
+		select {
+		case p := <-d.g.parked:
+			passed = append(passed, p.point)
+			d.at = p.point
+			if p.point == "exit" {
+				d.at = "exited"
+			}
+		case <-time.After(500 * time.Millisecond):
+		}
+	}
+	if (res == "ok" || res == "err") && d.at != "exited" {
+		return "plotter-not-exited", msg, passed
+	}
+	if res == "ok" || res == "err" {
+		d.at = "none"
+	}
+	return res, msg, passed
 }
 
 func (d *drv) project(ev vh.Event) {
@@ -440,6 +581,25 @@ func (d *drv) project(ev vh.Event) {
 	ev["files"] = files
 	ev["running"] = d.sk.Started()
 	ev["at"] = d.at
+	if d.srv != nil {
+		// the same states as the API reports them, and the miner
+		apist := map[string]string{}
+		var resp *pb.WorkSpacesResponse
+		r, msg := call(func() error {
+			var err error
+			resp, err = d.srv.GetCapacitySpaces(context.Background(), &empty.Empty{})
+			return err
+		})
+		if r != "ok" {
+			ev["apierr"] = r + " " + msg
+		} else {
+			for _, sp := range resp.Spaces {
+				apist[d.w(sp.SpaceId)] = sp.State
+			}
+		}
+		ev["apist"] = apist
+		ev["miner"] = d.miner.Started()
+	}
 }
 
 func run(sc vh.Scenario, dir string, rec *vh.Rec) {
@@ -496,6 +656,10 @@ func run(sc vh.Scenario, dir string, rec *vh.Rec) {
 	for w, s := range d.sids {
 		rec.Conc[w] = s[:16] + "..." + hex.EncodeToString([]byte{byte(len(s))})
 	}
+	if b, _ := sc.Opt["api"].(bool); b {
+		d.miner = &fakeMiner{}
+		d.srv = api.VerifServer(d.miner, nil, mining.NewConfigurableSpaceKeeperV1(sk))
+	}
 	// the first event fixes the initial state
 	ev0 := vh.Event{"a": "Init", "order": order}
 	d.project(ev0)
@@ -534,6 +698,10 @@ func run(sc vh.Scenario, dir string, rec *vh.Rec) {
 			}
 		case "StopKeeper":
 			if !sk.Started() || d.at == "popped" {
+				continue
+			}
+		case "Api":
+			if d.srv == nil || (st.Str("call") == "StopAll" && sk.Started() && d.at == "popped") {
 				continue
 			}
 		}
@@ -609,79 +777,84 @@ func run(sc vh.Scenario, dir string, rec *vh.Rec) {
 					ev["gate"] = "stuck"
 				}
 			}
+		case "Api":
+			// one gRPC handler (api/spaces.v1.go) over the real keeper and the scripted miner
+			ctx := context.Background()
+			cl, w := st.Str("call"), st.Str("w")
+			sid := d.sids[w]
+			if w == "wx" {
+				sid = strings.Repeat("02", 33) + "-24" // well-formed, not configured
+				if pk, _, e := (&fakeWallet{rng: vh.Rng(sc.Seed + 77)}).GenerateNewPublicKey(); e == nil {
+					sid = hex.EncodeToString(pk.SerializeCompressed()) + "-24"
+				}
+			}
+			var herr error
+			f := func() error {
+				switch cl {
+				case "PlotAll":
+					_, herr = d.srv.PlotCapacitySpaces(ctx, &empty.Empty{})
+				case "PlotOne":
+					_, herr = d.srv.PlotCapacitySpace(ctx, &pb.WorkSpaceRequest{SpaceId: sid})
+				case "MineAll":
+					_, herr = d.srv.MineCapacitySpaces(ctx, &empty.Empty{})
+				case "MineOne":
+					_, herr = d.srv.MineCapacitySpace(ctx, &pb.WorkSpaceRequest{SpaceId: sid})
+				case "StopAll":
+					_, herr = d.srv.StopCapacitySpaces(ctx, &empty.Empty{})
+				case "StopOne":
+					_, herr = d.srv.StopCapacitySpace(ctx, &pb.WorkSpaceRequest{SpaceId: sid})
+				default:
+					herr = errors.New("unknown call")
+				}
+				return herr
+			}
+			was := sk.Started()
+			var res, msg string
+			if cl == "StopAll" && was {
+				var passed []string
+				res, msg, passed = d.windStop(f)
+				if passed != nil {
+					ev["res"], ev["passed"] = apiRes(res, msg, herr), passed
+					if msg != "" {
+						ev["err"] = msg
+					}
+					break
+				}
+				// the handler returned without stopping the keeper: like any other call
+			} else {
+				res, msg = call(f)
+			}
+			ev["res"] = apiRes(res, msg, herr)
+			if msg != "" {
+				ev["err"] = msg
+			}
+			if res == "hang" {
+				break
+			}
+			// a Stop of the plotting space ends the scripted plot: the plotter arrives at its next gate
+			if d.at == "inplot" {
+				d.cur.mu.Lock()
+				still := d.cur.plotting
+				d.cur.mu.Unlock()
+				if !still {
+					if p, ok := d.waitPark(); ok {
+						ev["gate"], ev["out"] = p.point, "aborted"
+					} else {
+						ev["gate"] = "stuck"
+					}
+				}
+			}
+			// the handler started the keeper: its plotter goroutine arrives at its first gate
+			if !was && sk.Started() {
+				if p, ok := d.waitPark(); ok {
+					ev["sgate"] = p.point
+				} else {
+					ev["sgate"] = "stuck"
+				}
+			}
 		case "StopKeeper":
-			done := make(chan string, 1)
-			go func() {
-				r, _ := call(func() error { return sk.Stop() })
-				done <- r
-			}()
-			// the stop takes effect when the quit channel is closed: only then let the plotter run freely to its exit
-			for k := 0; k < 2000 && !capacity.VerifQuitClosed(sk); k++ {
-				time.Sleep(time.Millisecond)
-			}
-			passed := []string{}
-			res := ""
-			deadline := time.After(callTimeout + 2*time.Second)
-		wind:
-			for {
-				if d.at != "exited" && d.at != "none" && d.at != "inplot" {
-					select {
-					case d.g.grant <- struct{}{}:
-					case r := <-done:
-						res = r
-						break wind
-					case <-deadline:
-						res = "hang"
-						break wind
-					}
-				}
-				select {
-				case p := <-d.g.parked:
-					passed = append(passed, p.point)
-					d.at = p.point
-					if p.point == "exit" {
-						d.at = "exited"
-					}
-				case db := <-d.reg.inplot:
-					d.at, d.cur = "inplot", db
-					passed = append(passed, "inplot")
-				case r := <-done:
-					res = r
-					break wind
-				case <-deadline:
-					res = "hang"
-					break wind
-				}
-				if d.at == "exited" {
-					select {
-					case r := <-done:
-						res = r
-					case <-deadline:
-						res = "hang"
-					}
-					break wind
-				}
-			}
-			// the exit report is sent before the plotter's wg.Done, i.e. before Stop can return: when the select above
-			// took Stop's return first, the report is already waiting
-			if res == "ok" && d.at != "exited" {
-				select {
-				case p := <-d.g.parked:
-					passed = append(passed, p.point)
-					d.at = p.point
-					if p.point == "exit" {
-						d.at = "exited"
-					}
-				case <-time.After(500 * time.Millisecond):
-				}
-			}
+			res, _, passed := d.windStop(func() error { return sk.Stop() })
 			ev["res"], ev["passed"] = res, passed
-			if res == "ok" && d.at != "exited" {
-				ev["res"] = "plotter-not-exited"
-			}
-			if res == "ok" {
-				d.at = "none"
-			}
 		case "P":
 			d.g.grant <- struct{}{}
 			p, ok := d.waitPark()
